@@ -131,4 +131,745 @@ theorem isNull_isKnown_stripMarks (p : Payload) (hw : p.markerWF = true) :
 
 end Payload
 
+
+/-! ### the argument loops of `returnTypeForValues` -/
+namespace Fn
+
+/-- first argument (position, reason) at which the per-argument checks stop -/
+def firstFail : List Param → List Value → Option (Nat × ArgFail)
+  | p :: ps, v :: vs =>
+    match p.check v with
+    | some f => some (0, f)
+    | none => (firstFail ps vs).map fun kf => (kf.1 + 1, kf.2)
+  | _, _ => none
+
+/-- what `returnTypeForValues` answers for a first failure at absolute position `k` -/
+def Pass1.ofFail (k : Nat) : ArgFail → Pass1
+  | .dynamic => .dyn
+  | _ => .argErr k
+
+theorem checkLoop_eq : ∀ (ps : List Param) (vs : List Value) (i off : Nat),
+    checkLoop ps vs i off =
+      match firstFail ps vs with
+      | none => .ok (List.zipWith Param.typeArg ps vs)
+      | some (k, f) => Pass1.ofFail (i + k + off) f
+  | [], vs, i, off => by simp [checkLoop, firstFail]
+  | p :: ps, [], i, off => by simp [checkLoop, firstFail]
+  | p :: ps, v :: vs, i, off => by
+    simp only [checkLoop, firstFail]
+    cases hc : p.check v with
+    | some f => cases f <;> simp [Pass1.ofFail]
+    | none =>
+      simp only [checkLoop_eq ps vs (i + 1) off]
+      cases hf : firstFail ps vs with
+      | none => simp
+      | some kf =>
+        obtain ⟨k, f⟩ := kf
+        have : i + 1 + k + off = i + (k + 1) + off := by omega
+        cases f <;> simp [Pass1.ofFail, this]
+
+theorem firstFail_none : ∀ {ps : List Param} {vs : List Value}, firstFail ps vs = none →
+    ∀ (j : Nat) (p : Param) (v : Value), ps[j]? = some p → vs[j]? = some v → p.check v = none
+  | [], _, _, j, p, v, hp, _ => by simp at hp
+  | _ :: _, [], _, j, p, v, _, hv => by simp at hv
+  | p0 :: ps, v0 :: vs, h, j, p, v, hp, hv => by
+    simp only [firstFail] at h
+    cases hc : p0.check v0 with
+    | some f => simp [hc] at h
+    | none =>
+      simp only [hc, Option.map_eq_none_iff] at h
+      cases j with
+      | zero => simp at hp hv; subst hp hv; exact hc
+      | succ j => exact firstFail_none h j p v (by simpa using hp) (by simpa using hv)
+
+theorem firstFail_some : ∀ {ps : List Param} {vs : List Value} {k : Nat} {f : ArgFail},
+    firstFail ps vs = some (k, f) →
+    (∃ p v, ps[k]? = some p ∧ vs[k]? = some v ∧ p.check v = some f) ∧
+    ∀ (j : Nat) (p : Param) (v : Value), j < k → ps[j]? = some p → vs[j]? = some v → p.check v = none
+  | [], _, _, _, h => by simp [firstFail] at h
+  | _ :: _, [], _, _, h => by simp [firstFail] at h
+  | p0 :: ps, v0 :: vs, k, f, h => by
+    simp only [firstFail] at h
+    cases hc : p0.check v0 with
+    | some f' =>
+      simp only [hc, Option.some.injEq, Prod.mk.injEq] at h
+      obtain ⟨rfl, rfl⟩ := h
+      exact ⟨⟨p0, v0, by simp, by simp, hc⟩, fun j _ _ hj => absurd hj (Nat.not_lt_zero _)⟩
+    | none =>
+      simp only [hc, Option.map_eq_some_iff] at h
+      obtain ⟨⟨k', f'⟩, hf, he⟩ := h
+      simp only [Prod.mk.injEq] at he
+      obtain ⟨rfl, rfl⟩ := he
+      obtain ⟨⟨p, v, hp, hv, hpv⟩, hlt⟩ := firstFail_some hf
+      refine ⟨⟨p, v, by simpa using hp, by simpa using hv, hpv⟩, ?_⟩
+      intro j p' v' hj hp' hv'
+      cases j with
+      | zero => simp at hp' hv'; subst hp' hv'; exact hc
+      | succ j => exact hlt j p' v' (by omega) (by simpa using hp') (by simpa using hv')
+
+theorem firstFail_append : ∀ {ps : List Param} {vs : List Value} (qs : List Param) (ws : List Value),
+    ps.length = vs.length →
+    firstFail (ps ++ qs) (vs ++ ws) =
+      match firstFail ps vs with
+      | some x => some x
+      | none => (firstFail qs ws).map fun kf => (kf.1 + ps.length, kf.2)
+  | [], [], qs, ws, _ => by simp [firstFail]
+  | [], _ :: _, _, _, h => by simp at h
+  | _ :: _, [], _, _, h => by simp at h
+  | p :: ps, v :: vs, qs, ws, h => by
+    simp only [List.cons_append, firstFail]
+    cases hc : p.check v with
+    | some f => simp
+    | none =>
+      simp only [firstFail_append qs ws (by simpa using h : ps.length = vs.length)]
+      cases firstFail ps vs with
+      | some x => simp
+      | none =>
+        cases firstFail qs ws with
+        | none => simp
+        | some kf => simp [Nat.add_assoc]
+
+end Fn
+
+
+/-! ### parameters stretched over an argument list; `pass1` as a decision table -/
+namespace Fn
+
+/-- the parameter that governs argument position `i` -/
+def Spec.paramFor (spec : Spec) (i : Nat) : Option Param :=
+  if i < spec.params.length then spec.params[i]? else spec.varParam
+
+/-- the argument count is acceptable -/
+def Spec.countOK (spec : Spec) (n : Nat) : Bool :=
+  match spec.varParam with
+  | none => n == spec.params.length
+  | some _ => spec.params.length ≤ n
+
+/-- the parameter list stretched over `n` arguments: the variadic parameter repeated for the tail -/
+def Spec.expand (spec : Spec) (n : Nat) : List Param :=
+  spec.params ++
+    match spec.varParam with
+    | some vp => List.replicate (n - spec.params.length) vp
+    | none => []
+
+theorem Spec.expand_length {spec : Spec} {n : Nat} (h : spec.countOK n = true) :
+    (spec.expand n).length = n := by
+  unfold Spec.expand
+  unfold Spec.countOK at h
+  cases hv : spec.varParam with
+  | none => simp [hv] at h ⊢; omega
+  | some vp => simp [hv] at h ⊢; omega
+
+theorem Spec.expand_get {spec : Spec} {n i : Nat} (h : spec.countOK n = true) (hi : i < n) :
+    (spec.expand n)[i]? = spec.paramFor i := by
+  unfold Spec.expand Spec.paramFor
+  unfold Spec.countOK at h
+  cases hv : spec.varParam with
+  | none =>
+    simp [hv] at h ⊢
+  | some vp =>
+    simp [hv] at h ⊢
+    by_cases hlt : i < spec.params.length
+    · simp [hlt, List.getElem?_append_left hlt]
+    · simp only [hlt, if_false]
+      rw [List.getElem?_append_right (by omega)]
+      simp [List.getElem?_replicate]; omega
+
+theorem pass1_var_aux (ps : List Param) (vp : Param) (pos var : List Value)
+    (h : ps.length = pos.length) :
+    (match checkLoop ps pos 0 0 with
+     | .ok p =>
+       match checkLoop (List.replicate var.length vp) var 0 ps.length with
+       | .ok v => Pass1.ok (p ++ v)
+       | e => e
+     | e => e) =
+    match firstFail (ps ++ List.replicate var.length vp) (pos ++ var) with
+    | none => .ok (List.zipWith Param.typeArg (ps ++ List.replicate var.length vp) (pos ++ var))
+    | some (k, f) => Pass1.ofFail k f := by
+  rw [checkLoop_eq, checkLoop_eq, firstFail_append _ _ h]
+  cases h1 : firstFail ps pos with
+  | some kf =>
+    obtain ⟨k, f⟩ := kf
+    cases f <;> simp [Pass1.ofFail]
+  | none =>
+    cases h2 : firstFail (List.replicate var.length vp) var with
+    | some kf =>
+      obtain ⟨k, f⟩ := kf
+      cases f <;> simp [Pass1.ofFail, Nat.add_comm]
+    | none => simp [List.zipWith_append h]
+
+theorem pass1_eq (spec : Spec) (args : List Value) :
+    pass1 spec args =
+      if spec.countOK args.length then
+        match firstFail (spec.expand args.length) args with
+        | none => .ok (List.zipWith Param.typeArg (spec.expand args.length) args)
+        | some (k, f) => Pass1.ofFail k f
+      else .countErr := by
+  unfold pass1 Spec.countOK Spec.expand
+  cases hv : spec.varParam with
+  | none =>
+    by_cases hl : args.length = spec.params.length
+    · simp only [hl, bne_self_eq_false, Bool.false_eq_true, if_false, checkLoop_eq, beq_self_eq_true, if_true,
+        List.append_nil, Nat.zero_add, Nat.add_zero] <;> rfl
+    · simp [hl]
+  | some vp =>
+    by_cases hl : args.length < spec.params.length
+    · have : ¬ spec.params.length ≤ args.length := by omega
+      simp [hl, this]
+    · have hle : spec.params.length ≤ args.length := by omega
+      simp only [hl, if_false, hle, decide_true, if_true]
+      obtain ⟨pos, var, rfl, hlen⟩ : ∃ pos var, args = pos ++ var ∧ spec.params.length = pos.length :=
+        ⟨args.take spec.params.length, args.drop spec.params.length, (List.take_append_drop _ _).symm,
+          by simp [List.length_take]; omega⟩
+      have h3 : (pos ++ var).length - spec.params.length = var.length := by simp; omega
+      rw [List.take_left' hlen.symm, List.drop_left' hlen.symm, h3]
+      exact pass1_var_aux spec.params vp pos var hlen
+
+end Fn
+
+
+/-! ### the argument loops of `Call` -/
+namespace Fn
+
+theorem pass2_append : ∀ {ps : List Param} {vs : List Value} (qs : List Param) (ws : List Value),
+    ps.length = vs.length →
+    pass2 (ps ++ qs) (vs ++ ws) =
+      { args := (pass2 ps vs).args ++ (pass2 qs ws).args
+        marks := (pass2 ps vs).marks ++ (pass2 qs ws).marks
+        unknown := (pass2 ps vs).unknown || (pass2 qs ws).unknown }
+  | [], [], qs, ws, _ => by simp [pass2]
+  | [], _ :: _, _, _, h => by simp at h
+  | _ :: _, [], _, _, h => by simp at h
+  | p :: ps, v :: vs, qs, ws, h => by
+    simp only [List.cons_append, pass2, pass2_append qs ws (by simpa using h : ps.length = vs.length)]
+    simp [Bool.or_assoc]
+
+theorem pass2_nil_right (ps : List Param) : pass2 ps [] = ⟨[], [], false⟩ := by
+  cases ps <;> simp [pass2]
+
+/-- the part of `callBody` after the argument loops -/
+def callTail (impl : ImplFn) (expectedType : Ty) (dynTypeArgs : Bool) (r : Pass2) : Out Value × List Event :=
+  if dynTypeArgs || r.unknown then
+    (.ok (withMarkSets (Value.unknown expectedType) r.marks), [])
+  else
+    match impl r.args expectedType with
+    | .panic w => (.err (.panicError w), [.impl r.args expectedType])
+    | .err c => (.err (.callback c), [.impl r.args expectedType])
+    | .unmodelled => (.unmodelled, [.impl r.args expectedType])
+    | .ok retVal =>
+      let retVal := if r.marks.length > 0 then withMarkSets retVal r.marks else retVal
+      if Ty.conformErrs expectedType retVal.ty != 0 then
+        (.err (.panicError "result does not conform"), [.impl r.args expectedType])
+      else
+        (.ok retVal, [.impl r.args expectedType])
+
+theorem callBody_eq (spec : Spec) (impl : ImplFn) (args : List Value) (t : Ty) (d : Bool)
+    (h : spec.countOK args.length = true) :
+    callBody spec impl args t d = callTail impl t d (pass2 (spec.expand args.length) args) := by
+  unfold callBody Spec.countOK Spec.expand at *
+  cases hv : spec.varParam with
+  | none =>
+    simp only [hv, beq_iff_eq] at h
+    have h1 : args.take spec.params.length = args := by rw [← h]; exact List.take_length
+    have h2 : args.drop spec.params.length = [] := by rw [← h]; exact List.drop_length
+    simp only [h1, h2, List.append_nil, Bool.or_false]
+    cases hp : pass2 spec.params args
+    simp [callTail] <;> rfl
+  | some vp =>
+    simp only [hv, decide_eq_true_eq] at h
+    obtain ⟨pos, var, rfl, hlen⟩ : ∃ pos var, args = pos ++ var ∧ spec.params.length = pos.length :=
+      ⟨args.take spec.params.length, args.drop spec.params.length, (List.take_append_drop _ _).symm,
+        by simp [List.length_take]; omega⟩
+    have h3 : (pos ++ var).length - spec.params.length = var.length := by simp; omega
+    simp only [List.take_left' hlen.symm, List.drop_left' hlen.symm, h3, pass2_append _ _ hlen]
+    simp [callTail, or_assoc] <;> rfl
+
+end Fn
+
+
+/-! ### marks again; per-argument facts -/
+
+namespace Payload
+mutual
+theorem stripMarks_idem : ∀ p : Payload, stripMarks (stripMarks p) = stripMarks p
+  | .marked _ r => by simpa [stripMarks] using stripMarks_idem r
+  | .seq vs => by simp [stripMarks, stripMarksL_idem vs]
+  | .smap _ vs => by simp [stripMarks, stripMarksL_idem vs]
+  | .sset _ vs => by simp [stripMarks, stripMarksL_idem vs]
+  | .null | .unk _ | .b _ | .n _ | .s _ | .caps | .bad _ => by simp [stripMarks]
+theorem stripMarksL_idem : ∀ vs : List Payload, stripMarksL (stripMarksL vs) = stripMarksL vs
+  | [] => rfl
+  | v :: vs => by simp [stripMarksL, stripMarks_idem v, stripMarksL_idem vs]
+end
+
+theorem unmark1_withMarks (p : Payload) (ms : List String) : (p.withMarks ms).unmark1 = p.unmark1 := by
+  unfold withMarks
+  simp only
+  split <;> simp [unmark1]
+
+theorem mem_marks1_withMarks {p : Payload} {ms : List String} {m : String} :
+    m ∈ (p.withMarks ms).marks1 ↔ m ∈ p.marks1 ∨ m ∈ ms := by
+  unfold withMarks
+  simp only
+  split
+  · rename_i h
+    have h' : unionMarks p.marks1 ms = [] := by simpa using h
+    rw [unionMarks_eq_nil] at h'
+    simp [h'.1, h'.2]
+  · simp [marks1, mem_unionMarks]
+end Payload
+
+namespace Value
+theorem isKnown_withMarks (v : Value) (ms : List String) : (v.withMarks ms).isKnown = v.isKnown := by
+  simp [isKnown, withMarks, Payload.isKnown, Payload.unmark1_withMarks]
+theorem isNull_withMarks (v : Value) (ms : List String) : (v.withMarks ms).isNull = v.isNull := by
+  simp [isNull, withMarks, Payload.isNull, Payload.unmark1_withMarks]
+theorem mem_marks_withMarks {v : Value} {ms : List String} {m : String} :
+    m ∈ (v.withMarks ms).marks ↔ m ∈ v.marks ∨ m ∈ ms := Payload.mem_marks1_withMarks
+end Value
+
+namespace Fn
+
+theorem mem_unionAll {m : String} : ∀ {mss : List (List String)}, m ∈ unionAll mss ↔ ∃ ms ∈ mss, m ∈ ms
+  | [] => by simp [unionAll]
+  | ms :: mss => by
+    have : unionAll (ms :: mss) = unionMarks ms (unionAll mss) := rfl
+    rw [this, mem_unionMarks, mem_unionAll (mss := mss)]
+    simp
+
+theorem withMarkSets_ty (v : Value) (mss : List (List String)) : (withMarkSets v mss).ty = v.ty := by
+  unfold withMarkSets; split <;> rfl
+
+theorem isKnown_withMarkSets (v : Value) (mss : List (List String)) :
+    (withMarkSets v mss).isKnown = v.isKnown := by
+  unfold withMarkSets; split <;> simp [Value.isKnown_withMarks]
+
+theorem mem_marks_withMarkSets {v : Value} {mss : List (List String)} {m : String} :
+    m ∈ (withMarkSets v mss).marks ↔ m ∈ v.marks ∨ ∃ ms ∈ mss, m ∈ ms := by
+  unfold withMarkSets
+  split
+  · rename_i h
+    have : mss = [] := by simpa using h
+    simp [this]
+  · rw [Value.mem_marks_withMarks, mem_unionAll]
+
+/-! per-argument facts -/
+
+theorem Param.check_none {p : Param} {v : Value} (h : p.check v = none) :
+    (v.isNull = true → p.allowNull = true) ∧ (v.ty.isDyn = true → p.allowDynamic = true) ∧
+    (v.ty.isDyn = false → Ty.conformErrs p.ty v.ty = 0) := by
+  unfold Param.check at h
+  split at h
+  · simp at h
+  · rename_i hn
+    split at h
+    · rename_i hd
+      split at h
+      · simp at h
+      · rename_i ha
+        refine ⟨?_, ?_, ?_⟩
+        · intro hv; simpa [hv] using hn
+        · intro _; simpa using ha
+        · intro hf; simp [hf] at hd
+    · rename_i hd
+      split at h
+      · simp at h
+      · rename_i hc
+        refine ⟨?_, ?_, ?_⟩
+        · intro hv; simpa [hv] using hn
+        · intro ht; exact absurd ht hd
+        · intro _; simpa using hc
+
+theorem Param.check_some_null {p : Param} {v : Value} (h : p.check v = some .null) :
+    v.isNull = true ∧ p.allowNull = false := by
+  unfold Param.check at h
+  split at h
+  · rename_i hn; simpa using hn
+  · split at h
+    · split at h <;> simp at h
+    · split at h <;> simp at h
+
+theorem Param.check_some_nonconforming {p : Param} {v : Value} (h : p.check v = some .nonconforming) :
+    v.ty.isDyn = false ∧ Ty.conformErrs p.ty v.ty ≠ 0 := by
+  unfold Param.check at h
+  split at h
+  · simp at h
+  · split at h
+    · split at h <;> simp at h
+    · rename_i hd
+      split at h
+      · rename_i hc; exact ⟨by simpa using hd, by simpa using hc⟩
+      · simp at h
+
+theorem Param.check_some_dynamic {p : Param} {v : Value} (h : p.check v = some .dynamic) :
+    v.ty.isDyn = true ∧ p.allowDynamic = false := by
+  unfold Param.check at h
+  split at h
+  · simp at h
+  · split at h
+    · rename_i hd
+      split at h
+      · rename_i ha; exact ⟨hd, by simpa using ha⟩
+      · simp at h
+    · split at h <;> simp at h
+
+theorem Param.callArg_ty (p : Param) (v : Value) : (p.callArg v).1.ty = v.ty := by
+  unfold Param.callArg
+  split
+  · split <;> rfl
+  · rfl
+
+theorem Param.typeArg_ty (p : Param) (v : Value) : (p.typeArg v).ty = v.ty := by
+  unfold Param.typeArg; split <;> rfl
+
+theorem Param.callArg_unmarkDeep (p : Param) (v : Value) : (p.callArg v).1.unmarkDeep = v.unmarkDeep := by
+  unfold Param.callArg
+  split
+  · split
+    · simp [Value.unmarkDeep, Payload.stripMarks_idem]
+    · rfl
+  · rfl
+
+theorem Param.typeArg_unmarkDeep (p : Param) (v : Value) : (p.typeArg v).unmarkDeep = v.unmarkDeep := by
+  unfold Param.typeArg
+  split
+  · simp [Value.unmarkDeep, Payload.stripMarks_idem]
+  · rfl
+
+/-- without `AllowMarked` the argument handed to `Impl` carries no mark at any depth -/
+theorem Param.callArg_marksDeep {p : Param} (v : Value) (h : p.allowMarked = false) :
+    (p.callArg v).1.marksDeep = [] := by
+  unfold Param.callArg
+  simp only [h, Bool.not_false, if_true]
+  split
+  · exact Payload.marksDeep_stripMarks _
+  · rename_i hl
+    have : v.marksDeep.length = 0 := by omega
+    exact List.eq_nil_of_length_eq_zero this
+
+theorem Param.callArg_containsMarked {p : Param} (v : Value) (h : p.allowMarked = false)
+    (hw : v.v.markerWF = true) : (p.callArg v).1.containsMarked = false := by
+  unfold Param.callArg
+  simp only [h, Bool.not_false, if_true]
+  split
+  · exact Payload.containsMarked_stripMarks _
+  · rename_i hl
+    have : v.marksDeep = [] := List.eq_nil_of_length_eq_zero (by omega)
+    exact Payload.not_containsMarked_of_marksDeep_nil _ hw this
+
+theorem Param.callArg_isNull_isKnown (p : Param) (v : Value) (hw : v.v.markerWF = true) :
+    (p.callArg v).1.isNull = v.isNull ∧ (p.callArg v).1.isKnown = v.isKnown := by
+  unfold Param.callArg
+  split
+  · split
+    · exact Payload.isNull_isKnown_stripMarks _ hw
+    · exact ⟨rfl, rfl⟩
+  · exact ⟨rfl, rfl⟩
+
+/-- on constructor-built values both passes unmark exactly the same arguments -/
+theorem Param.typeArg_eq_callArg (p : Param) (v : Value) (hw : v.v.markerWF = true) :
+    p.typeArg v = (p.callArg v).1 := by
+  unfold Param.typeArg Param.callArg
+  cases hm : p.allowMarked
+  · simp only [Bool.not_false, Bool.and_true, if_true]
+    by_cases hc : v.containsMarked = true
+    · have : v.marksDeep ≠ [] := fun h0 => by
+        have := Payload.not_containsMarked_of_marksDeep_nil _ hw h0
+        simp [Value.containsMarked] at hc; simp [hc] at this
+      have hl : v.marksDeep.length > 0 := List.length_pos_iff.mpr this
+      simp [hc, hl]
+    · have h0 : v.marksDeep = [] := Payload.marksDeep_of_not_containsMarked _ (by simpa [Value.containsMarked] using hc)
+      simp [hc, h0]
+  · simp
+
+end Fn
+
+
+/-! ### index-level facts about the loops; `call` as a decision table -/
+namespace Fn
+
+theorem zipWith_get {f : Param → Value → Value} : ∀ {ps : List Param} {vs : List Value} {i : Nat} {a : Value},
+    (List.zipWith f ps vs)[i]? = some a → ∃ p v, ps[i]? = some p ∧ vs[i]? = some v ∧ a = f p v
+  | [], _, _, _, h => by simp at h
+  | _ :: _, [], _, _, h => by simp at h
+  | p :: ps, v :: vs, 0, a, h => ⟨p, v, rfl, rfl, by simpa using h.symm⟩
+  | p :: ps, v :: vs, i + 1, a, h => by
+    obtain ⟨p', v', hp, hv, ha⟩ := zipWith_get (f := f) (ps := ps) (vs := vs) (i := i) (a := a) (by simpa using h)
+    exact ⟨p', v', by simpa using hp, by simpa using hv, ha⟩
+
+theorem map_unmarkDeep_zipWith {f : Param → Value → Value} (hf : ∀ p v, (f p v).unmarkDeep = v.unmarkDeep) :
+    ∀ (ps : List Param) (vs : List Value), ps.length = vs.length →
+      (List.zipWith f ps vs).map Value.unmarkDeep = vs.map Value.unmarkDeep
+  | [], [], _ => rfl
+  | [], _ :: _, h => by simp at h
+  | _ :: _, [], h => by simp at h
+  | p :: ps, v :: vs, h => by
+    simp [hf, map_unmarkDeep_zipWith hf ps vs (by simpa using h)]
+
+theorem pass2_args_eq : ∀ (ps : List Param) (vs : List Value),
+    (pass2 ps vs).args = List.zipWith (fun p v => (p.callArg v).1) ps vs
+  | [], _ => by simp [pass2]
+  | _ :: _, [] => by simp [pass2]
+  | p :: ps, v :: vs => by simp [pass2, pass2_args_eq ps vs]
+
+theorem typeArgs_eq_callArgs : ∀ (ps : List Param) (vs : List Value),
+    (∀ v ∈ vs, v.v.markerWF = true) → List.zipWith Param.typeArg ps vs = (pass2 ps vs).args
+  | [], _, _ => by simp [pass2]
+  | _ :: _, [], _ => by simp [pass2]
+  | p :: ps, v :: vs, h => by
+    simp only [List.zipWith_cons_cons, pass2]
+    rw [Param.typeArg_eq_callArg p v (h v (by simp)), typeArgs_eq_callArgs ps vs (fun x hx => h x (by simp [hx]))]
+
+theorem pass2_unknown_false : ∀ {ps : List Param} {vs : List Value}, (pass2 ps vs).unknown = false →
+    ∀ (i : Nat) (p : Param) (v : Value), ps[i]? = some p → vs[i]? = some v → p.blocksUnknown v = false
+  | [], _, _, i, p, v, hp, _ => by simp at hp
+  | _ :: _, [], _, i, p, v, _, hv => by simp at hv
+  | p0 :: ps, v0 :: vs, h, i, p, v, hp, hv => by
+    simp only [pass2, Bool.or_eq_false_iff] at h
+    cases i with
+    | zero => simp at hp hv; subst hp hv; exact h.1
+    | succ i => exact pass2_unknown_false h.2 i p v (by simpa using hp) (by simpa using hv)
+
+theorem pass2_unknown_true : ∀ {ps : List Param} {vs : List Value}, (pass2 ps vs).unknown = true →
+    ∃ (i : Nat) (p : Param) (v : Value), ps[i]? = some p ∧ vs[i]? = some v ∧ p.blocksUnknown v = true
+  | [], _, h => by simp [pass2] at h
+  | _ :: _, [], h => by simp [pass2] at h
+  | p0 :: ps, v0 :: vs, h => by
+    simp only [pass2, Bool.or_eq_true] at h
+    rcases h with h | h
+    · exact ⟨0, p0, v0, rfl, rfl, h⟩
+    · obtain ⟨i, p, v, hp, hv, hb⟩ := pass2_unknown_true h
+      exact ⟨i + 1, p, v, by simpa using hp, by simpa using hv, hb⟩
+
+/-- every mark of an argument whose parameter lacks `AllowMarked` is in `resultMarks` -/
+theorem mem_pass2_marks {m : String} : ∀ {ps : List Param} {vs : List Value} (i : Nat) (p : Param) (v : Value),
+    ps[i]? = some p → vs[i]? = some v → p.allowMarked = false → m ∈ v.marksDeep →
+    ∃ ms ∈ (pass2 ps vs).marks, m ∈ ms
+  | [], _, i, p, v, hp, _, _, _ => by simp at hp
+  | _ :: _, [], i, p, v, _, hv, _, _ => by simp at hv
+  | p0 :: ps, v0 :: vs, i, p, v, hp, hv, ha, hm => by
+    cases i with
+    | zero =>
+      simp at hp hv; subst hp hv
+      have hl : v0.marksDeep.length > 0 := List.length_pos_iff.mpr (List.ne_nil_of_mem hm)
+      refine ⟨v0.marksDeep, ?_, hm⟩
+      simp [pass2, Param.callArg, ha, hl]
+    | succ i =>
+      obtain ⟨ms, hms, hmm⟩ := mem_pass2_marks (ps := ps) (vs := vs) i p v (by simpa using hp) (by simpa using hv) ha hm
+      exact ⟨ms, by simp [pass2, hms], hmm⟩
+
+/-- no invention: every mark set in `resultMarks` is the deep mark set of such an argument -/
+theorem pass2_marks_origin {ms : List String} : ∀ {ps : List Param} {vs : List Value},
+    ms ∈ (pass2 ps vs).marks →
+    ∃ (i : Nat) (p : Param) (v : Value), ps[i]? = some p ∧ vs[i]? = some v ∧ p.allowMarked = false ∧ ms = v.marksDeep
+  | [], _, h => by simp [pass2] at h
+  | _ :: _, [], h => by simp [pass2] at h
+  | p0 :: ps, v0 :: vs, h => by
+    simp only [pass2, List.mem_append] at h
+    rcases h with h | h
+    · refine ⟨0, p0, v0, rfl, rfl, ?_⟩
+      unfold Param.callArg at h
+      split at h
+      · rename_i ha
+        split at h
+        · exact ⟨by simpa using ha, by simpa using h⟩
+        · simp at h
+      · simp at h
+    · obtain ⟨i, p, v, hp, hv, ha, he⟩ := pass2_marks_origin h
+      exact ⟨i + 1, p, v, by simpa using hp, by simpa using hv, ha, he⟩
+
+/-! ### `call` as a decision table -/
+
+/-- the deferred refinement, if one is declared -/
+def finish (spec : Spec) (o : Out Value × List Event) : Out Value × List Event :=
+  match spec.refine with
+  | some r => deferredRefine r o
+  | none => o
+
+/-- `Call` as a decision table over the stretched parameter list. -/
+def callTable (spec : Spec) (tf : TypeFn) (impl : ImplFn) (args : List Value) : Out Value × List Event :=
+  if spec.countOK args.length then
+    let E := spec.expand args.length
+    let R := pass2 E args
+    match firstFail E args with
+    | some (_, .dynamic) => (.ok (withMarkSets (Value.unknown .dyn) R.marks), [])
+    | some (k, _) => (.err (.arg k), [])
+    | none =>
+      let T := List.zipWith Param.typeArg E args
+      match tf T with
+      | .err c => (.err (.callback c), [.type T])
+      | .panic w => (.err (.panicError w), [.type T])
+      | .unmodelled => (.unmodelled, [.type T])
+      | .ok rt => finish spec ((callTail impl rt false R).1, .type T :: (callTail impl rt false R).2)
+  else (.err .argCount, [])
+
+theorem call_eq (spec : Spec) (tf : TypeFn) (impl : ImplFn) (args : List Value) :
+    call spec tf impl args = callTable spec tf impl args := by
+  unfold call callTable returnTypeForValues
+  rw [pass1_eq]
+  by_cases hc : spec.countOK args.length = true
+  · simp only [hc, if_true]
+    cases hf : firstFail (spec.expand args.length) args with
+    | some kf =>
+      obtain ⟨k, f⟩ := kf
+      cases f <;> simp only [Pass1.ofFail]
+      -- dynamic
+      rw [callBody_eq _ _ _ _ _ hc]
+      cases hr : spec.refine <;> simp [callTail]
+    | none =>
+      simp only
+      cases ht : tf (List.zipWith Param.typeArg (spec.expand args.length) args) with
+      | ok rt =>
+        simp only [callBody_eq _ _ _ _ _ hc, finish]
+        cases hr : spec.refine <;> simp
+      | err c => rfl
+      | panic w => rfl
+      | unmodelled => rfl
+  · simp [hc]
+
+end Fn
+
+
+namespace Fn
+
+/-! ### specification vocabulary over argument positions -/
+
+/-- the per-argument checks stop first at argument `k`, for reason `f` -/
+def FirstFailAt (spec : Spec) (args : List Value) (k : Nat) (f : ArgFail) : Prop :=
+  (∃ p v, spec.paramFor k = some p ∧ args[k]? = some v ∧ p.check v = some f) ∧
+  ∀ (j : Nat) (p : Param) (v : Value), j < k → spec.paramFor j = some p → args[j]? = some v → p.check v = none
+
+/-- every argument passes the per-argument checks of its parameter -/
+def AllPass (spec : Spec) (args : List Value) : Prop :=
+  ∀ (j : Nat) (p : Param) (v : Value), spec.paramFor j = some p → args[j]? = some v → p.check v = none
+
+/-- mark `m` occurs (at some depth) in an argument whose parameter lacks `AllowMarked` -/
+def Unhandled (spec : Spec) (args : List Value) (m : String) : Prop :=
+  ∃ (i : Nat) (p : Param) (v : Value), spec.paramFor i = some p ∧ args[i]? = some v ∧
+    p.allowMarked = false ∧ m ∈ v.marksDeep
+
+/-- some argument is unknown although its parameter lacks `AllowUnknown` -/
+def SomeUnknownBlocked (spec : Spec) (args : List Value) : Prop :=
+  ∃ (i : Nat) (p : Param) (v : Value), spec.paramFor i = some p ∧ args[i]? = some v ∧ p.blocksUnknown v = true
+
+/-- `w` is `v` with exactly the unhandled marks added to its top-level mark set -/
+def WithUnhandled (spec : Spec) (args : List Value) (v w : Value) : Prop :=
+  w.ty = v.ty ∧ w.unmark = v.unmark ∧ ∀ m, m ∈ w.marks ↔ (m ∈ v.marks ∨ Unhandled spec args m)
+
+/-- the argument list the `Type` callback is handed -/
+def typeArgs (spec : Spec) (args : List Value) : List Value :=
+  List.zipWith Param.typeArg (spec.expand args.length) args
+
+/-- the argument list the `Impl` callback is handed -/
+def implArgs (spec : Spec) (args : List Value) : List Value :=
+  List.zipWith (fun p v => (p.callArg v).1) (spec.expand args.length) args
+
+theorem getElem?_lt {α} {l : List α} {i : Nat} {a : α} (h : l[i]? = some a) : i < l.length := by
+  have := List.getElem?_eq_some_iff.mp h
+  exact this.1
+
+theorem firstFail_to_at {spec : Spec} {args : List Value} {k : Nat} {f : ArgFail}
+    (hc : spec.countOK args.length = true)
+    (h : firstFail (spec.expand args.length) args = some (k, f)) : FirstFailAt spec args k f := by
+  obtain ⟨⟨p, v, hp, hv, hpv⟩, hlt⟩ := firstFail_some h
+  have hk := getElem?_lt hv
+  refine ⟨⟨p, v, by rw [← Spec.expand_get hc hk]; exact hp, hv, hpv⟩, ?_⟩
+  intro j p' v' hj hp' hv'
+  have hjl := getElem?_lt hv'
+  exact hlt j p' v' hj (by rw [Spec.expand_get hc hjl]; exact hp') hv'
+
+theorem firstFail_to_allPass {spec : Spec} {args : List Value}
+    (hc : spec.countOK args.length = true)
+    (h : firstFail (spec.expand args.length) args = none) : AllPass spec args := by
+  intro j p v hp hv
+  have hjl := getElem?_lt hv
+  exact firstFail_none h j p v (by rw [Spec.expand_get hc hjl]; exact hp) hv
+
+theorem FirstFailAt.unique {spec : Spec} {args : List Value} {k k' : Nat} {f f' : ArgFail}
+    (h : FirstFailAt spec args k f) (h' : FirstFailAt spec args k' f') : k = k' ∧ f = f' := by
+  obtain ⟨⟨p, v, hp, hv, hpv⟩, hlt⟩ := h
+  obtain ⟨⟨p', v', hp', hv', hpv'⟩, hlt'⟩ := h'
+  have hk : k = k' := by
+    rcases Nat.lt_trichotomy k k' with hl | he | hg
+    · have := hlt' k p v hl hp hv; rw [this] at hpv; simp at hpv
+    · exact he
+    · have := hlt k' p' v' hg hp' hv'; rw [this] at hpv'; simp at hpv'
+  subst hk
+  rw [hp] at hp'; rw [hv] at hv'
+  simp only [Option.some.injEq] at hp' hv'
+  subst hp' hv'
+  rw [hpv] at hpv'
+  exact ⟨rfl, by simpa using hpv'⟩
+
+theorem firstFail_of_at {spec : Spec} {args : List Value} {k : Nat} {f : ArgFail}
+    (hc : spec.countOK args.length = true) (h : FirstFailAt spec args k f) :
+    firstFail (spec.expand args.length) args = some (k, f) := by
+  cases hf : firstFail (spec.expand args.length) args with
+  | none =>
+    obtain ⟨⟨p, v, hp, hv, hpv⟩, _⟩ := h
+    have := firstFail_to_allPass hc hf k p v hp hv
+    rw [this] at hpv; simp at hpv
+  | some kf =>
+    obtain ⟨k', f'⟩ := kf
+    obtain ⟨rfl, rfl⟩ := FirstFailAt.unique h (firstFail_to_at hc hf)
+    rfl
+
+theorem firstFail_of_allPass {spec : Spec} {args : List Value}
+    (hc : spec.countOK args.length = true) (h : AllPass spec args) :
+    firstFail (spec.expand args.length) args = none := by
+  cases hf : firstFail (spec.expand args.length) args with
+  | none => rfl
+  | some kf =>
+    obtain ⟨k, f⟩ := kf
+    obtain ⟨⟨p, v, hp, hv, hpv⟩, _⟩ := firstFail_to_at hc hf
+    have := h k p v hp hv
+    rw [this] at hpv; simp at hpv
+
+theorem unhandled_iff {spec : Spec} {args : List Value} (hc : spec.countOK args.length = true) (m : String) :
+    (∃ ms ∈ (pass2 (spec.expand args.length) args).marks, m ∈ ms) ↔ Unhandled spec args m := by
+  constructor
+  · rintro ⟨ms, hms, hm⟩
+    obtain ⟨i, p, v, hp, hv, ha, rfl⟩ := pass2_marks_origin hms
+    exact ⟨i, p, v, by rw [← Spec.expand_get hc (getElem?_lt hv)]; exact hp, hv, ha, hm⟩
+  · rintro ⟨i, p, v, hp, hv, ha, hm⟩
+    exact mem_pass2_marks i p v (by rw [Spec.expand_get hc (getElem?_lt hv)]; exact hp) hv ha hm
+
+theorem someUnknownBlocked_iff {spec : Spec} {args : List Value} (hc : spec.countOK args.length = true) :
+    (pass2 (spec.expand args.length) args).unknown = true ↔ SomeUnknownBlocked spec args := by
+  constructor
+  · intro h
+    obtain ⟨i, p, v, hp, hv, hb⟩ := pass2_unknown_true h
+    exact ⟨i, p, v, by rw [← Spec.expand_get hc (getElem?_lt hv)]; exact hp, hv, hb⟩
+  · rintro ⟨i, p, v, hp, hv, hb⟩
+    cases hu : (pass2 (spec.expand args.length) args).unknown with
+    | true => rfl
+    | false =>
+      have := pass2_unknown_false hu i p v (by rw [Spec.expand_get hc (getElem?_lt hv)]; exact hp) hv
+      rw [this] at hb; simp at hb
+
+theorem unmark_withMarkSets (v : Value) (mss : List (List String)) : (withMarkSets v mss).unmark = v.unmark := by
+  unfold withMarkSets
+  split
+  · rfl
+  · simp [Value.unmark, Value.withMarks, Payload.unmark1_withMarks]
+
+theorem withUnhandled_withMarkSets {spec : Spec} {args : List Value} (hc : spec.countOK args.length = true)
+    (v : Value) : WithUnhandled spec args v (withMarkSets v (pass2 (spec.expand args.length) args).marks) :=
+  ⟨withMarkSets_ty _ _, unmark_withMarkSets _ _, fun m => by rw [mem_marks_withMarkSets, unhandled_iff hc]⟩
+
+theorem withUnhandled_cond {spec : Spec} {args : List Value} (hc : spec.countOK args.length = true)
+    (v : Value) :
+    WithUnhandled spec args v
+      (if (pass2 (spec.expand args.length) args).marks.length > 0 then
+        withMarkSets v (pass2 (spec.expand args.length) args).marks else v) := by
+  split
+  · exact withUnhandled_withMarkSets hc v
+  · rename_i h
+    have h0 : (pass2 (spec.expand args.length) args).marks = [] := List.eq_nil_of_length_eq_zero (by omega)
+    refine ⟨rfl, rfl, fun m => ?_⟩
+    rw [← unhandled_iff hc, h0]
+    simp
+
+end Fn
+
 end CtyModel
